@@ -68,6 +68,7 @@ func c03Prop(c *sim.Case) {
 	}
 	shape := genShape(c, "shape", w)
 	w.IdP.Default = shape
+	w.IdP.CallbackExtras = sim.Tail(c, "callback-extras", 2, 13)
 	if shape.NoAccess && o.AccessToken {
 		shape.NoAccess = false
 	}
